@@ -55,10 +55,11 @@ def used_object(a, dt):
             pass
         try:
             # ... and was corrected over a time window / re-based while it held that earlier record
-            if _USED[0] % 4 == 0 and len(other) >= 12 and float(np.max(np.abs(other))) > 0:
+            r_ = int(_NOISE.integers(3))       # (an independent choice: a counter would correlate with which function is asked next)
+            if r_ == 0 and len(other) >= 12 and float(np.max(np.abs(other))) > 0:
                 t_end = (len(other) - 1) * dt
                 o.set_zero_residual_displacement_and_velocity(timezone=(0.3 * t_end, 0.9 * t_end))
-            elif _USED[0] % 4 == 2:
+            elif r_ == 1:
                 o.rebase_displacement()
         except Exception:
             pass
